@@ -6,24 +6,35 @@ addresses in listed order, one at a time, and stop at the first that connects.
 namespace Txdbus.Client.Lifecycle
 open Txdbus.Client.Endpoints
 
-/-- The reactor's answer to one connection attempt. -/
-def walkEv (reachable : Bool) : Ev := if reachable then .attemptConnects else .attemptFails
+/-- The reactor's answer to one connection attempt: it connects, or it fails - for whatever reason. -/
+inductive Outcome
+  | connects
+  | fails (why : FailKind)
+deriving DecidableEq, Repr
+
+def Outcome.ok : Outcome → Bool
+  | .connects => true
+  | .fails _ => false
+
+def walkEv : Outcome → Ev
+  | .connects => .attemptConnects
+  | .fails why => .attemptFails why
 
 /-- Spec: the addresses that must have been tried - every unreachable one before the first reachable
 one, then that one. -/
-def expectedAttempts (tagged : List (Endpoint × Bool)) : List Endpoint :=
-  (tagged.takeWhile (fun t => !t.2)).map (·.1) ++ ((tagged.find? (·.2)).map (·.1)).toList
+def expectedAttempts (tagged : List (Endpoint × Outcome)) : List Endpoint :=
+  (tagged.takeWhile (fun t => !t.2.ok)).map (·.1) ++ ((tagged.find? (·.2.ok)).map (·.1)).toList
 
-theorem expectedAttempts_cons (e : Endpoint) (b : Bool) (t : List (Endpoint × Bool)) :
-    expectedAttempts ((e, b) :: t) = e :: (if b then [] else expectedAttempts t) := by
-  cases b <;> simp [expectedAttempts, List.takeWhile, List.find?]
+theorem expectedAttempts_cons (e : Endpoint) (b : Outcome) (t : List (Endpoint × Outcome)) :
+    expectedAttempts ((e, b) :: t) = e :: (if b.ok then [] else expectedAttempts t) := by
+  cases b <;> simp [expectedAttempts, List.takeWhile, List.find?, Outcome.ok]
 
 theorem run_append (v : Variant) (h₁ h₂ : List Ev) : ∀ s : St, run v s (h₁ ++ h₂) = run v (run v s h₁) h₂ := by
   induction h₁ with
   | nil => intro s; rfl
   | cons e t ih => intro s; simp [run, ih]
 
-theorem walk_noop (bs : List Bool) : ∀ s : St, s.phase ≠ .connecting → run .repaired s (bs.map walkEv) = s := by
+theorem walk_noop (bs : List Outcome) : ∀ s : St, s.phase ≠ .connecting → run .repaired s (bs.map walkEv) = s := by
   induction bs with
   | nil => intro s _; rfl
   | cons b t ih =>
@@ -36,15 +47,15 @@ theorem attempts_emit_attempt (s : St) (e : Endpoint) (r : List Endpoint) (c : O
   simp [attempts, List.filterMap_append]
 
 /-- One attempt is outstanding (its outcome is `b`), `tagged` are the addresses after it. -/
-theorem walk_from (tagged : List (Endpoint × Bool)) : ∀ (b : Bool) (s : St),
+theorem walk_from (tagged : List (Endpoint × Outcome)) : ∀ (b : Outcome) (s : St),
     s.phase = .connecting → s.remaining = (tagged.map (·.1)).reverse → s.fired = [] →
     attempts (run .repaired s (walkEv b :: tagged.map (fun t => walkEv t.2))) =
-      attempts s ++ (if b then [] else expectedAttempts tagged) ∧
-    (b = true → (run .repaired s (walkEv b :: tagged.map (fun t => walkEv t.2))).phase = .authenticating ∧
+      attempts s ++ (if b.ok then [] else expectedAttempts tagged) ∧
+    (b.ok = true → (run .repaired s (walkEv b :: tagged.map (fun t => walkEv t.2))).phase = .authenticating ∧
                 (run .repaired s (walkEv b :: tagged.map (fun t => walkEv t.2))).current = s.current ∧
                 (run .repaired s (walkEv b :: tagged.map (fun t => walkEv t.2))).fired = []) ∧
-    (b = false →
-      match tagged.find? (·.2) with
+    (b.ok = false →
+      match tagged.find? (·.2.ok) with
       | some t => (run .repaired s (walkEv b :: tagged.map (fun t => walkEv t.2))).phase = .authenticating ∧
                   (run .repaired s (walkEv b :: tagged.map (fun t => walkEv t.2))).current = some t.1 ∧
                   (run .repaired s (walkEv b :: tagged.map (fun t => walkEv t.2))).fired = []
@@ -54,37 +65,40 @@ theorem walk_from (tagged : List (Endpoint × Bool)) : ∀ (b : Bool) (s : St),
   induction tagged with
   | nil =>
     intro b s hp hr hf
-    cases b
-    · simp [run, walkEv, step, hp, tryNext, hr, fire, hf, attempts, List.filterMap_append, expectedAttempts]
-    · simp [run, walkEv, step, hp, attempts, hf]
+    cases b with
+    | fails why =>
+      simp [run, walkEv, step, hp, tryNext, hr, fire, hf, attempts, List.filterMap_append, expectedAttempts, Outcome.ok]
+    | connects => simp [run, walkEv, step, hp, attempts, hf, Outcome.ok]
   | cons x t ih =>
     intro b s hp hr hf
     obtain ⟨e, b'⟩ := x
-    cases b
-    · -- the outstanding attempt fails: `try_next_ep` pops `e`
+    cases b with
+    | fails why =>
+      -- the outstanding attempt fails (for whatever reason): `try_next_ep` pops `e`
       have hlast : s.remaining.getLast? = some e := by simp [hr]
       have hdrop : s.remaining.dropLast = (t.map (·.1)).reverse := by simp [hr]
-      have hstep : step .repaired s (walkEv false) =
+      have hstep : step .repaired s (walkEv (.fails why)) =
           { s with remaining := (t.map (·.1)).reverse, current := some e, log := s.log ++ [.attempt e] } := by
         simp [walkEv, step, hp, tryNext, hlast, hdrop]
       simp only [run, List.map_cons, hstep]
       obtain ⟨i1, i2, i3⟩ := ih b' { s with remaining := (t.map (·.1)).reverse, current := some e, log := s.log ++ [.attempt e] }
         hp rfl hf
       simp only [run] at i1 i2 i3
-      refine ⟨?_, by simp, ?_⟩
-      · rw [i1, attempts_emit_attempt, expectedAttempts_cons]; simp
+      refine ⟨?_, by simp [Outcome.ok], ?_⟩
+      · rw [i1, attempts_emit_attempt, expectedAttempts_cons]; simp [Outcome.ok]
       · intro _
-        cases b'
-        · simpa [List.find?] using i3 rfl
-        · simpa [List.find?] using i2 rfl
-    · -- the outstanding attempt connects: the later outcomes are never asked for
-      have hstep : step .repaired s (walkEv true) = { s with phase := .authenticating } := by
+        cases hb' : b'.ok
+        · simpa [List.find?, hb'] using i3 hb'
+        · simpa [List.find?, hb'] using i2 hb'
+    | connects =>
+      -- the outstanding attempt connects: the later outcomes are never asked for
+      have hstep : step .repaired s (walkEv .connects) = { s with phase := .authenticating } := by
         simp [walkEv, step, hp]
       have hnoop := walk_noop (((e, b') :: t).map (·.2)) { s with phase := .authenticating } (by simp)
       simp only [List.map_map] at hnoop
       have hmap : ((e, b') :: t).map (fun t => walkEv t.2) = List.map (walkEv ∘ fun x => x.snd) ((e, b') :: t) := rfl
       simp only [run, hstep, hmap, hnoop]
-      simp [attempts, hf]
+      simp [attempts, hf, Outcome.ok]
 
 /-- `connect` on a non-empty list: the list is reversed and its first address popped from the end. -/
 def started (e : Endpoint) (rest : List Endpoint) : St :=
@@ -93,9 +107,9 @@ def started (e : Endpoint) (rest : List Endpoint) : St :=
 theorem connect_cons (e : Endpoint) (rest : List Endpoint) : connect (e :: rest) = started e rest := by
   simp [connect, tryNext, St.empty, started]
 
-theorem walk_connect (tagged : List (Endpoint × Bool)) :
+theorem walk_connect (tagged : List (Endpoint × Outcome)) :
     attempts (run .repaired (connect (tagged.map (·.1))) (tagged.map (fun t => walkEv t.2))) = expectedAttempts tagged ∧
-    (match tagged.find? (·.2) with
+    (match tagged.find? (·.2.ok) with
      | some t =>
        (run .repaired (connect (tagged.map (·.1))) (tagged.map (fun t => walkEv t.2))).phase = .authenticating ∧
        (run .repaired (connect (tagged.map (·.1))) (tagged.map (fun t => walkEv t.2))).current = some t.1 ∧
@@ -113,14 +127,14 @@ theorem walk_connect (tagged : List (Endpoint × Bool)) :
     simp only [List.map_cons, connect_cons]
     refine ⟨?_, ?_⟩
     · rw [w1, expectedAttempts_cons]
-      cases b <;> simp [attempts, started, St.empty]
-    · cases b
-      · have := w3 rfl
-        simp only [List.find?]
-        cases hf : t.find? (·.2) with
+      cases b <;> simp [attempts, started, St.empty, Outcome.ok]
+    · cases hb : b.ok
+      · have := w3 hb
+        simp only [List.find?, hb]
+        cases hf : t.find? (·.2.ok) with
         | none => simpa [hf] using this
         | some u => simpa [hf] using this
-      · have := w2 rfl
-        simpa [List.find?, started] using this
+      · have := w2 hb
+        simpa [List.find?, started, hb] using this
 
 end Txdbus.Client.Lifecycle
